@@ -168,6 +168,16 @@ func runC11(c *core.Case) {
 			ids = append(ids, genID(r, h, h, v, v))
 		}
 	}
+	if r.P(0.1) { // sibling differing only in a high bit of x or y (what truncated or packed de-duplication keys confuse)
+		sb := ids[r.Intn(len(ids))]
+		if r.Bool() {
+			sb.X = flipHigh(r, sb.X, sb.H)
+		} else {
+			sb.Y = flipHigh(r, sb.Y, sb.H)
+		}
+		ids = append(ids, sb)
+		c.Tag("high-bit-sibling")
+	}
 	cornerShape := r.P(0.15) && !square
 	if cornerShape {
 		dh, dv := r.Range(0, 2), r.Range(0, 2)
@@ -231,6 +241,17 @@ func runC11(c *core.Case) {
 	want := pairSet{}
 	for t := range ref.Change(ids, H, V) {
 		want[[2]int64{ref.Quadkey(t.X, t.Y, H), t.F}] = struct{}{}
+	}
+	if r.P(0.08) {
+		// poison: the same conversion rejected for a malformed ID after a valid prefix taken from the judged list itself
+		_, perr := transform.ConvertExtendedSpatialIDsToQuadkeysAndVerticalIDs(malformedAfter(r, in[:1+r.Intn(len(in))]), H, V, 0, 0)
+		_, perr2 := transform.ConvertExtendedSpatialIDsToQuadkeysAndAltitudekeys(malformedAfter(r, in[:1]), H, clampI(minV, 0, 35), 26, 1<<25)
+		c.Calls(2)
+		if perr == nil || perr2 == nil {
+			c.Fail("quadkey-missing-error", nil, "a list ending in a malformed ID was accepted (%v, %v)", perr, perr2)
+			return
+		}
+		c.Tag("after-failed-call")
 	}
 	res, err := transform.ConvertExtendedSpatialIDsToQuadkeysAndVerticalIDs(in, H, V, 0, 0)
 	c.Call()
